@@ -1,0 +1,26 @@
+//go:build verif
+
+package main
+
+// Contracts checked by /verif/engine (govc). Comment-only file: no code is compiled from it.
+
+// pint lint: a run that reaches the end of linting returns an error (non-zero exit) exactly when some
+// reported problem has severity >= --fail-on. --min-severity (display filter) and duplicate folding do not occur
+// in the decision.
+//@ func actionLint [C05]
+//@   loop 2 invariant failProblems >= 0 && bySeverity != nil
+//@   loop 2 invariant forall k checks.Severity :: visited(k) ==> has(bySeverity, k)
+//@   loop 2 invariant failProblems > 0 <==> (exists k checks.Severity :: visited(k) && k >= failOn)
+//@   at return@after-loop2 assert (result != nil) <==>
+//@        (exists i int :: 0 <= i && i < len(summary.reports) && summary.reports[i].Problem.Severity >= failOn)
+
+// pint ci: same decision with the threshold parsed from --fail-on; reporting happens after the decision and can
+// only add an error, never remove one.
+//@ func actionCI [C05]
+//@   loop 1 invariant bySeverity != nil
+//@   loop 1 invariant forall k checks.Severity :: visited(k) ==> has(bySeverity, k)
+//@   loop 1 invariant problemsFound <==> (exists k checks.Severity :: visited(k) && k >= minSeverity)
+//@   at call SortReports assert problemsFound <==>
+//@        (exists i int :: 0 <= i && i < len(summary.reports) && summary.reports[i].Problem.Severity >= minSeverity)
+//@   at return@loop1 assert problemsFound ==> result != nil
+//@   at return@after-loop1 assert !problemsFound ==> result == nil
